@@ -9,7 +9,8 @@ reference written in this file.
                                JointNormalDistribution.__getitem__, covariance_matrix
     bounded_rv_numeric(tier)   nearest_positive_semidefinite, is_positive_semidefinite, cov2corr/corr2cov,
                                parameters_sdcorr, validate/nearest_valid_parameters, Model initial
-                               estimates, ucp scale, modeling/math.py matrix conversions
+                               estimates (create, replace of parameters, replace of only the random
+                               variables / other components), ucp scale, modeling/math.py matrix conversions
 
 Reference model of a collection of distributions (independent of pharmpy):
     ref = {'blocks': [(name, ...), ...]      ordered partition of the names into distributions
@@ -1481,6 +1482,114 @@ def _model_inputs(tier):
     return out
 
 
+# ---- (e2) models in which only SOME components are replaced ----------------------------------------------
+#
+# input = {'from': collection, 'to': collection, 'values': {parameter: value}}: both collections are over the same
+# variables; the parameters of the model are those of both collections.  The model is created with the structure
+# 'from', for which the values are valid (every block positive definite: the precondition), then ONLY the random
+# variables are replaced by the structure 'to' (alone, together with the statements, together with the very same /
+# an equal Parameters object).  Every model returned must have valid initial estimates: blocks of 'to' that the
+# carried-over values make indefinite are replaced by the nearest positive semidefinite matrix, everything else
+# keeps its value.  Replacing only components that have nothing to do with the estimates keeps every value.
+
+PART_WAYS = (
+    ('Model.replace(random_variables=)', lambda m, rvs, P, S: m.replace(random_variables=rvs)),
+    ('Model.replace(random_variables=, statements=)', lambda m, rvs, P, S: m.replace(random_variables=rvs, statements=S())),
+    ('Model.replace(statements=, random_variables=) in two steps',
+     lambda m, rvs, P, S: m.replace(statements=S()).replace(random_variables=rvs)),
+    ('Model.replace(parameters=<the parameters of the model>, random_variables=)',
+     lambda m, rvs, P, S: m.replace(parameters=m.parameters, random_variables=rvs)),
+    ('Model.replace(parameters=<equal parameters>, random_variables=)',
+     lambda m, rvs, P, S: m.replace(parameters=P.create(list(m.parameters)), random_variables=rvs)),
+)
+PART_FRAME = 'Model.replace of name, description or statements only: every initial estimate keeps its value'
+
+
+def _union_roles(ref1, ref2):
+    roles = dict(_param_roles(ref1))
+    for k, r in _param_roles(ref2).items():
+        if roles.get(k, r) != r:
+            raise AssertionError('parameter used both as variance and covariance')
+        roles[k] = r
+    return roles
+
+
+def _chk_modelpart(inp):
+    from pharmpy.model import Model, Parameter, Parameters, Statements
+    rvs1, ref1 = _ref_only(inp['from'])
+    rvs2, ref2 = _ref_only(inp['to'])
+    v0 = dict(inp['values'])
+    v0['THETA_X'] = 7.0
+    if _validity(ref1, v0)[0] != 'pd':
+        return []      # precondition: the values are valid for the structure the model is created with
+    roles = _union_roles(ref1, ref2)
+    show = lambda ref: [[[ref['cov'][(x, y)] for y in b] for x in b] for b in ref['blocks']]   # noqa
+    what = 'initial estimates %r, model created with %r, random variables replaced by %r' % (inp['values'], show(ref1), show(ref2))
+    fails = []
+    try:
+        pars = [Parameter.create('THETA_X', 7.0, lower=0)]
+        for p in sorted(roles):
+            pars.append(Parameter.create(p, v0[p], lower=0 if roles[p] == 'var' else None))
+        base = Model.create(name='m', parameters=Parameters.create(pars), random_variables=rvs1)
+        v1 = {k: float(v) for k, v in base.parameters.inits.items()}
+    except Exception as e:  # noqa
+        return [(FID_CANON, 'Model.create: no internal error', '%s: %s for %s' % (type(e).__name__, e, what))]
+    _chk_nearest_result(fails, FID_CANON, 'Model.create', ref1, v0, v1, what)
+    if v1 != v0:
+        return fails
+    for prefix, fn in PART_WAYS:
+        try:
+            model = fn(base, rvs2, Parameters, Statements)
+            new = {k: float(v) for k, v in model.parameters.inits.items()}
+            names = list(model.random_variables.names)
+        except Exception as e:  # noqa
+            fails.append((FID_CANON, prefix + ': no internal error', '%s: %s for %s' % (type(e).__name__, e, what)))
+            continue
+        if names != _names_of(ref2):
+            fails.append((FID_CANON, prefix + ': the model has the new random variables', '%s: %r' % (what, names)))
+        _chk_nearest_result(fails, FID_CANON, prefix, ref2, v1, new, what)
+    for label, fn in (('name', lambda m: m.replace(name='other')), ('description', lambda m: m.replace(description='text')),
+                      ('statements', lambda m: m.replace(statements=Statements()))):
+        try:
+            new = {k: float(v) for k, v in fn(base).parameters.inits.items()}
+        except Exception as e:  # noqa
+            fails.append((FID_CANON, 'Model.replace(%s=): no internal error' % label, '%s: %s for %s' % (type(e).__name__, e, what)))
+            continue
+        if new != v1:
+            fails.append((FID_CANON, PART_FRAME, '%s: replace(%s=) gives %r' % (what, label, new)))
+    if {k: float(v) for k, v in base.parameters.inits.items()} != v1:
+        fails.append((FID_CANON, 'Model.replace does not modify the model it is called on', what))
+    return fails
+
+
+def _partitions(n, variant):
+    return [{'variant': variant, 'blocks': [[s, 'IIV'] for s in comp]} for comp in _compositions(n)]
+
+
+def _modelpart_inputs(tier):
+    out = []
+    if tier == 'thorough':
+        vargrid, covgrid = [0.5, 2], GRID
+    else:
+        vargrid, covgrid = [0.5, 2], [-1, 0, 0.5, 2]
+    for variant in ('distinct', 'shared'):
+        for n in (2, 3):
+            parts = _partitions(n, variant)
+            for d1 in parts:
+                for d2 in parts:
+                    if d1 == d2:
+                        continue
+                    _, ref1 = _ref_only(d1)
+                    _, ref2 = _ref_only(d2)
+                    roles = _union_roles(ref1, ref2)
+                    names = sorted(roles)
+                    for vals in itertools.product(*[vargrid if roles[p] == 'var' else covgrid for p in names]):
+                        values = dict(zip(names, [float(v) for v in vals]))
+                        if _validity(ref1, values)[0] == 'pd':
+                            out.append({'from': d1, 'to': d2, 'values': values})
+    return out
+
+
 # ---- (f) ucp scale -------------------------------------------------------------------------------------
 
 _UCP = {}
@@ -1733,8 +1842,9 @@ NUM_KINDS = {
     'model': (_chk_model, _model_inputs),
     'ucp': (_chk_ucp, _ucp_inputs),
     'mm': (_chk_mm, _mm_inputs),
+    'modelpart': (_chk_modelpart, _modelpart_inputs),
 }
-NUM_ORDER = ['psd', 'corr', 'sdcorr', 'valid', 'model', 'ucp', 'mm']
+NUM_ORDER = ['psd', 'corr', 'sdcorr', 'valid', 'model', 'ucp', 'mm', 'modelpart']   # new kinds are appended
 
 
 def _num_worker(task):
@@ -1770,7 +1880,7 @@ def bounded_rv_numeric(tier):
             if part:
                 tasks.append((kind, part))
     # longest kinds first
-    tasks.sort(key=lambda t: -len(t[1]) * {'model': 6, 'ucp': 10, 'mm': 4, 'valid': 2, 'sdcorr': 2}.get(t[0], 1))
+    tasks.sort(key=lambda t: -len(t[1]) * {'model': 6, 'ucp': 10, 'mm': 4, 'valid': 2, 'sdcorr': 2, 'modelpart': 12}.get(t[0], 1))
     col = _Collector()
     for part in _pool_map(_num_worker, tasks):
         col.merge(part)
@@ -1783,10 +1893,15 @@ def bounded_rv_numeric(tier):
              'variances in %s x covariances on the grid (%d); Model.create / Model.replace(parameters=): collections of <= 3 variables x value grid (%d); '
              'ucp: pheno, moxo and their joint-distribution variants x every single and (theta, random) pair of fixed parameters, initial estimates '
              'scaled, theta bounds changed, correlations %s, each variance fixed to zero (%d models); modeling/math.py: the 8 calculate_* conversions '
-             'on every positive definite 2x2 / 3x3 grid matrix (%d)'
+             'on every positive definite 2x2 / 3x3 grid matrix (%d); models with only some components replaced: every ordered pair of '
+             'different splits of 2 or 3 IIV variables into singletons and joint blocks (distinct / shared parameters) x variances in '
+             '{0.5,2} x covariances in %s, restricted to values that are valid for the first split: Model.create with the first split, '
+             'then replace(random_variables=second split) alone / with statements / after statements / with the same or an equal '
+             'Parameters object, and replace(name= / description= / statements=) (%d)'
              % ('the same grid' if thorough else 'the grid {-1,-0.5,0,0.5,1,2}', ' and all symmetric 4x4 matrices on {-1,0,1}' if thorough else '',
                 counts['psd'], counts['corr'], 4 if thorough else 3, counts['sdcorr'], '{0,0.5,1,2}' if thorough else '{0.5,1,2}', counts['valid'],
-                counts['model'], '-0.9..0.9' if thorough else '-0.5/0.1/0.5', counts['ucp'], counts['mm']))
+                counts['model'], '-0.9..0.9' if thorough else '-0.5/0.1/0.5', counts['ucp'], counts['mm'],
+                'the grid {-2,-1,-0.5,0,0.5,1,2}' if thorough else '{-1,0,0.5,2}', counts['modelpart']))
     return col.result(bound)
 
 
